@@ -21,9 +21,13 @@ T1  `interp_sound`         interpreter accepts  ⇒  Script accepts, with a clea
       here so that this file does not depend on another property's lemma files.
 T2  `constraints_checked`  every reported constraint was checked successfully (ALL fragments) and
       holds in Script's environment (`constraints_hold_for_script`)
-Findings, proved on the model as counterexamples to the unconditional statement:
-      `interp_unsound_cltv_final_sequence`, `interp_unsound_csv_tx_version_1`,
-      `schnorr_explicit_default_accepted`, `bool_script_element_commits_to_other_bytes`.
+Remaining finding, proved on the model as a counterexample to the unconditional statement:
+      `interp_unsound_csv_tx_version_1` (the interpreter never sees the transaction version; this is
+      the only finding-related clause left in `Agree`).
+Fixed in /repo and followed by the model (the former counterexamples are now positive facts):
+      `after_final_sequence_rejected` (BIP65 final input, fix 1d81d5db),
+      `schnorr_parse_is_bip341` (65-byte signature with sighash byte 0x00, fix bda5c1de),
+      `committed_script_is_the_element` (script element `[01]` / `[]`, fix be897bb9).
 -/
 import MsVerif.Lemmas.InterpSound
 import MsVerif.Lemmas.InterpConstraints
@@ -156,8 +160,8 @@ theorem constraints_hold_for_script {env : Env} {ke : KeyEnv} {ie : IEnv} (ag : 
     exact ⟨(ag.sig pk sg v1).1, (ag.sig pk sg v1).2, by rw [← ag.h160]; exact v2⟩
   | hashLock k hh pre => exact ⟨by rw [← ag.hash]; exact v.1, v.2⟩
   | after n =>
-    obtain ⟨v1, v2⟩ := v
-    refine after_ok ag ?_ v2
+    obtain ⟨v0, v1, v2⟩ := v
+    refine after_ok ag (beq_eq_false_iff_ne.mpr v0) ?_ v2
     simpa only [Bool.and_eq_true, Bool.or_eq_true, decide_eq_true_eq] using v1
   | older n =>
     obtain ⟨v0, v1, v2⟩ := v
@@ -178,10 +182,10 @@ def flags0 : Flags := ⟨false, true, true, true, true, false, false⟩
 def envOf (lsq ver : Nat) : Env := ⟨flags0, fun _ _ => false, fun _ _ => [], 100, lsq, ver⟩
 def ieOf (lsq ver : Nat) : IEnv := ⟨fun _ _ => false, fun _ => false, fun _ => [], fun _ _ => [], 100, lsq, ver⟩
 
-/-- `after(100)` with nLockTime = 100 on a FINAL input: the interpreter reports the lock as
-satisfied, `OP_CHECKLOCKTIMEVERIFY` fails (BIP65).  `evaluate_after` never looks at nSequence. -/
-theorem interp_unsound_cltv_final_sequence :
-    interpTop ke0 (ieOf 4294967295 2) (.after 100) [] = .ok [.after 100]
+/-- `after(100)` with nLockTime = 100 on a FINAL input: rejected by the interpreter, as by
+`OP_CHECKLOCKTIMEVERIFY` (BIP65) — the former finding `cltv-final-sequence`, fixed in /repo -/
+theorem after_final_sequence_rejected :
+    interpTop ke0 (ieOf 4294967295 2) (.after 100) [] = .error .absoluteLockTimeNotMet
     ∧ frag (envOf 4294967295 2) ke0 .segwitv0 (.after 100) ⟨[], [], 0⟩ = .error .unsatisfiedLocktime := by
   constructor <;> rfl
 
@@ -192,35 +196,48 @@ theorem interp_unsound_csv_tx_version_1 :
     ∧ frag (envOf 10 1) ke0 .segwitv0 (.older 10) ⟨[], [], 0⟩ = .error .unsatisfiedLocktime := by
   constructor <;> rfl
 
-/-- in both cases every other clause of the oracle agreement holds, so the two side conditions
-`notFinal` / `version` of `Agree` are exactly what the interpreter fails to check -/
-theorem findings_agree_otherwise :
-    (∀ pk sg, (ieOf 4294967295 2).verifySig pk sg = true →
-        (envOf 4294967295 2).sigOk pk sg = true ∧ pubkeyOk (envOf 4294967295 2) pk = true)
-    ∧ (ieOf 4294967295 2).lockTime = (envOf 4294967295 2).nLockTime
-    ∧ (ieOf 4294967295 2).sequence = (envOf 4294967295 2).nSequence
-    ∧ (envOf 4294967295 2).txVersion ≥ 2
-    ∧ (ieOf 10 1).sequence = (envOf 10 1).nSequence ∧ (envOf 10 1).nSequence ≠ SEQ_FINAL := by
-  refine ⟨fun pk sg h => ?_, rfl, rfl, by decide, rfl, by decide⟩
-  simp [ieOf] at h
+/-- every other clause of the oracle agreement holds in that counterexample, so `version` is
+exactly what the interpreter fails to check -/
+theorem finding_agrees_otherwise :
+    (∀ pk sg, (ieOf 10 1).verifySig pk sg = true →
+        (envOf 10 1).sigOk pk sg = true ∧ pubkeyOk (envOf 10 1) pk = true)
+    ∧ (∀ pk, (ieOf 10 1).keyParse pk = true → pubkeyOk (envOf 10 1) pk = true)
+    ∧ (ieOf 10 1).lockTime = (envOf 10 1).nLockTime
+    ∧ (ieOf 10 1).sequence = (envOf 10 1).nSequence := by
+  refine ⟨fun pk sg h => ?_, fun pk h => ?_, rfl, rfl⟩
+  · simp [ieOf] at h
+  · simp [ieOf] at h
 
-/-- `verify_sersig` parses a 64-byte signature followed by 0x00 (and then verifies the 64-byte
-prefix with the default sighash); BIP341 rejects that shape -/
-theorem schnorr_explicit_default_accepted :
-    ∀ body : Bytes, body.length = 64 →
-      schnorrSigParses (body ++ [0x00]) = true ∧ bip341SigShape (body ++ [0x00]) = false := by
-  intro body hb
-  simp [schnorrSigParses, bip341SigShape, hb]
+/-- `verify_sersig` lets exactly the BIP341 signature shapes through to verification (a 64-byte
+signature followed by 0x00 is refused) — the former finding `schnorr65-explicit-default` -/
+theorem schnorr_parse_is_bip341 : ∀ sig : Bytes, schnorrSigParses sig = bip341SigShape sig := by
+  intro sig
+  unfold schnorrSigParses bip341SigShape
+  by_cases h64 : sig.length = 64
+  · have e1 : (sig.length == 64) = true := by simpa using h64
+    have e2 : (sig.length == 65) = false := by simp [h64]
+    simp [e1, e2]
+  · have e1 : (sig.length == 64) = false := by simpa using h64
+    by_cases h65 : sig.length = 65
+    · have e2 : (sig.length == 65) = true := by simpa using h65
+      cases hl : sig.getLast? with
+      | none =>
+        have : sig = [] := List.getLast?_eq_none_iff.mp hl
+        subst this; simp at h65
+      | some b =>
+        by_cases hb : b = 0
+        · subst hb; simp [e1, e2]
+        · simp [e1, e2, hb]
+    · have e2 : (sig.length == 65) = false := by simpa using h65
+      simp [e1, e2]
 
-/-- a witness-script / redeem-script / tapscript element `[01]` is committed to as the script
-`OP_1` (0x51), not as the bytes given: `from_txdata` accepts `wsh(1)`, `sh(1)`, `tr(K,1)` spends
-whose script element is `[01]` although the hash of `[01]` is not the program -/
-theorem bool_script_element_commits_to_other_bytes :
-    committedScriptBytes (Elem.ofBytes [1]) ≠ (Elem.ofBytes [1]).bytes
-    ∧ committedScriptBytes (Elem.ofBytes []) ≠ (Elem.ofBytes []).bytes
-    ∧ ∀ b, Elem.ofBytes b = .push b → committedScriptBytes (Elem.ofBytes b) = (Elem.ofBytes b).bytes := by
-  refine ⟨by decide, by decide, fun b h => ?_⟩
-  simp [h, committedScriptBytes, Elem.bytes]
+/-- a witness-script / redeem-script / tapscript element is committed to as the very bytes given;
+`[01]` and `[]` are refused — the former finding `bool-script-element` -/
+theorem committed_script_is_the_element :
+    ∀ (e : Elem) (b : Bytes), committedScriptBytes e = some b → b = e.bytes := by
+  intro e b h
+  cases e <;> simp [committedScriptBytes, Elem.bytes] at h ⊢
+  exact h.symm
 
 /-! ### non-vacuity -/
 
@@ -245,7 +262,6 @@ theorem envX_agree : Agree envX ieX where
   hash := fun _ _ => rfl
   lockTime := rfl
   sequence := rfl
-  notFinal := by decide
   version := by decide
 
 theorem lockOk_100 : LockOk envX 100 := ⟨by decide, by decide, by decide, by decide, by decide⟩
